@@ -8,10 +8,11 @@ META = {
     "engine": "place",
     "design_ref": "5/C27",
     "coq_targets": ["Props/Properties_C27.vo", "Place/RoundsCheck.vo", "Place/ReplCheck.vo"],
-    "coq_files": ["Place/Policer.v", "Place/PolicerProofs.v", "Place/Rounds.v", "Place/RoundsProofs.v", "Place/RoundsCheck.v",
-                  "Place/Repl.v", "Place/ReplProofs.v", "Place/ReplCheck.v", "Props/Properties_C27.v"],
+    "coq_files": ["Place/Policer.v", "Place/PolicerProofs.v", "Place/Rounds.v", "Place/RoundsProofs.v", "Place/RoundsMultiProofs.v",
+                  "Place/RoundsCheck.v", "Place/Repl.v", "Place/ReplProofs.v", "Place/ReplCheck.v", "Props/Properties_C27.v"],
     "theorems": ["C27_converges", "C27_progress", "C27_never_empty", "C27_primary_never_drops", "C27_replicator_bounded",
-                 "C27_replicator_bounded_any", "C27_node_replication_bounded"],
+                 "C27_replicator_bounded_any", "C27_node_replication_bounded", "C27_multi_restores_partial",
+                 "C27_multi_primary_never_drops", "C27_multi_progress", "C27_multi_never_empty"],
     "technique": "Coq proof (closed form of the C26 policer model on a cluster environment, strictly decreasing measure = number of primary "
                  "nodes missing the object, induction over rounds; induction over the target list for the replicator) + differential check: "
                  "rounds of the real Policer/Replicator over a shared in-memory cluster (one or two REP rules with overlapping vectors) "
@@ -20,7 +21,9 @@ META = {
                   "the container and every order of the nodes inside each round (each node gets its turn): after R+1 rounds of the modelled "
                   "policer checks the holders are exactly the R primary nodes, every later check leaves the state unchanged and issues no "
                   "replication task; each holder's check strictly decreases the number of primaries missing the object; the holder set "
-                  "never becomes empty; a primary holder never drops its copy; the replicator reports at most the requested number of "
+                  "never becomes empty; a primary holder never drops its copy; for any number of REP rules with overlapping vectors: after (sum "
+                  "of the copies numbers) rounds every primary node of every rule holds the object and keeps it, no primary of any rule ever "
+                  "drops, every check makes strict progress; the replicator reports at most the requested number of "
                   "successes and only nodes it sent the object to - for every kind of task (address only, or carrying the object with the "
                   "local node among the targets: a successful local Put consumes one unit of the quantity) and any answers of the remote "
                   "nodes. The cluster model runs the C26 model of processObject (repaired code) for any number of REP rules; the tie runs "
@@ -30,8 +33,13 @@ META = {
     "level_note": "Trusted: Coq kernel + vm_compute; hand-written models Place/Policer.v, Place/Rounds.v, Place/Repl.v (tied by differential "
                   "replay on sampled clusters of 3-6 nodes, REP 1-3, one or two rules, random initial holders and random per-round orders; "
                   "replicator: all target lists of <=3 remote nodes + the local node at any position x quantities 0..len+1 x task kinds); "
-                  "harness fakes; Python driver. partial: the convergence + quiescence THEOREMS cover a single REP rule; for two REP rules "
-                  "with overlapping vectors MULTI_NOTE; asynchronous timing between nodes is abstracted into rounds of sequential checks (any order "
+                  "harness fakes; Python driver. partial: for SEVERAL REP rules with overlapping vectors the theorems (C27_multi_*) prove that after (sum of copies "
+                  "numbers) rounds every primary node of every rule holds the object and keeps it for ever, strict progress of every holder's "
+                  "check, no primary of any rule ever drops, never empty - but NOT that the holder set stops changing and replication stops; "
+                  "that part is only checked by the differential tie and the reference `after (sum of copies numbers)+1 rounds the holder set "
+                  "no longer changes and no check sends or deletes a copy` (the unchanged code keeps calling the replicator with an EMPTY "
+                  "candidate list in such policies, see notes/C27.md); exact convergence to the primaries + full quiescence is proved for a "
+                  "single REP rule only; asynchronous timing between nodes is abstracted into rounds of sequential checks (any order "
                   "inside a round is quantified, but checks of different nodes do not overlap in time); REGULAR objects, no maintenance, all "
                   "nodes reachable and accepting; holders outside the container are not considered.",
     "trusted_base": ["Coq 8.16.1 kernel, vm_compute", "models Place/Policer.v, Place/Rounds.v, Place/Repl.v hand-written, tied by differential check",
